@@ -1004,8 +1004,9 @@ class SamplingMethod(DirectMethod):
                     # E.g for single shooting, set_initial of a state, for k>0
                     # Error message is usually "... arbitrary expression ..." but can also be
                     # "... You cannot set an initial value for a parameter ..."
-                    # if the dynamics contains a parameter
-                    if "arbitrary expression" in str(e) or (not target.is_valid_input() and "initial value for a parameter" in str(e)):
+                    # if the dynamics contains a parameter, or a complaint about free variables
+                    # if the propagated state is affine in some variables with coefficients depending on others
+                    if "arbitrary expression" in str(e) or (not target.is_valid_input() and ("initial value for a parameter" in str(e) or "are free" in str(e))):
                         pass
                     else:
                         # Other type of error: 
